@@ -14,6 +14,7 @@ import importlib
 import io
 import json
 import os
+import re
 import sys
 import types
 
@@ -49,7 +50,7 @@ def run_client(src, names):
             exec(compile(src, "client_mod.py", "exec"), ns)
     except BaseException as e:  # noqa
         out["exc"] = type(e).__name__ + ": " + str(e)[:120]
-    out["stdout"] = buf.getvalue()[:400]
+    out["stdout"] = re.sub(r" at 0x[0-9a-fA-F]+", "", buf.getvalue())[:400]   # objects the client creates move
     return ns, out
 
 
